@@ -216,6 +216,38 @@ fn build_stepwise(x: &mut Xot, d: &ADoc, rng: &mut Rng, cons_off: bool, stats: &
         if ready.is_empty() {
             return Err(format!("harness: schedule stuck with {:?}", pending));
         }
+        // injected faults: calls that must be refused and must not change anything
+        if rng.pct(12) {
+            let made: Vec<usize> = (0..n).filter(|i| handle[*i].is_some()).collect();
+            if let (Some(a), Some(b)) = (rng.pick_opt(&made).copied(), rng.pick_opt(&made).copied()) {
+                let (ha, hb) = (handle[a].unwrap(), handle[b].unwrap());
+                let a_elem = matches!(f.nodes[a].kind, AKind::Elem(_));
+                let a_container = a_elem || matches!(f.nodes[a].kind, AKind::Doc);
+                match rng.below(4) {
+                    0 if !a_elem => {
+                        let r = x.new_document_with_element(ha);
+                        log.push(format!("refused? new_document_with_element(#{}) -> {}", a, r.is_err()));
+                        stats.inc("fault/c20_refused_call");
+                    }
+                    1 if !a_container => {
+                        let r = x.append(ha, hb);
+                        log.push(format!("refused? append(#{}, #{}) -> {}", a, b, r.is_err()));
+                        stats.inc("fault/c20_refused_call");
+                    }
+                    2 if matches!(f.nodes[b].kind, AKind::Doc) => {
+                        let r = x.append(ha, hb);
+                        log.push(format!("refused? append(#{}, document) -> {}", a, r.is_err()));
+                        stats.inc("fault/c20_refused_call");
+                    }
+                    3 if a == b => {
+                        let r = x.insert_after(ha, hb);
+                        log.push(format!("refused? insert_after(#{}, #{}) -> {}", a, b, r.is_err()));
+                        stats.inc("fault/c20_refused_call");
+                    }
+                    _ => {}
+                }
+            }
+        }
         let pi = *rng.pick(&ready);
         let task = pending.remove(pi);
         match task {
@@ -404,6 +436,11 @@ fn run_inner(r: &C20Replay, stats: &mut Stats, sample: Option<&mut Vec<String>>)
     let aroot = absdoc::model_doc(&mut m, d);
     let expect = m.canon(aroot);
     let mut x = Xot::new();
+    if r.cons_off {
+        // the switch is store-wide: it is off for all three routes (build_stepwise switches it
+        // back on at its end)
+        x.set_text_consolidation(false);
+    }
     // (a) parse of a rendering
     let mut coin = Rng::new(r.cdata_seed);
     let mut cdata = move || coin.pct(15);
